@@ -30,19 +30,23 @@ BASE_MS = 1_700_000_000_000
 ZERO = "0000000000000000000000000"
 
 TIERS = {
-    "quick": dict(mc=["MC_dur_quick.cfg"], mutants=False, tlc_runs=1, rnd_runs=0, ops=8, bulk=0,
-                  max_points=400, rand_kills=0, jobs=10),
-    "thorough": dict(mc=["MC_dur_quick.cfg", "MC_dur_thorough.cfg"], mutants=True, tlc_runs=9, rnd_runs=8, ops=10,
-                     bulk=2, max_points=250, rand_kills=200, jobs=10),
+    "quick": dict(mc=["MC_dur_quick.cfg"], mutants=False, tlc_runs=3, rnd_runs=2, ops=8, bulk=1,
+                  max_points=400, bulk_points=40, rand_kills=0, jobs=10),
+    "thorough": dict(mc=["MC_dur_quick.cfg", "MC_dur_thorough.cfg", "MC_dur_ops4.cfg"], mutants=True, tlc_runs=9, rnd_runs=8, ops=10,
+                     bulk=2, max_points=400, bulk_points=120, rand_kills=240, jobs=10),
 }
 
 # spec mutants: config -> (crash kind that must expose it, substring of the reason)
 MUTANTS = {
-    "MC_dur_mut_nopersist.cfg": ("kill", "neither Apply"),
+    # fjall flushes its user-space buffer at every commit (durability = Buffer by default), so
+    # leaving persist(SyncAll) out, or downgrading it, costs power-loss durability only ...
+    "MC_dur_mut_nopersist.cfg": ("power", "neither Apply"),
     "MC_dur_mut_buffer.cfg": ("power", "neither Apply"),
-    "MC_dur_mut_three.cfg": ("", "partitions disagree"),
+    "MC_dur_mut_remnopersist.cfg": ("power", "neither Apply"),
+    # ... and loses acknowledged writes at a process kill only under manual_journal_persist
+    "MC_dur_mut_nopersist_manual.cfg": ("kill", "neither Apply"),
+    "MC_dur_mut_three.cfg": ("kill", "partitions disagree"),
     "MC_dur_mut_casafter.cfg": ("kill", "content is missing"),
-    "MC_dur_mut_remnopersist.cfg": ("kill", "neither Apply"),
 }
 WITNESSES = {"MC_dur_wit_torn.cfg": "SomeTornBatchDropped", "MC_dur_wit_inflight.cfg": "SomeInflightSurvives"}
 
@@ -188,7 +192,7 @@ def parse_acks(path):
 
 
 # ------------------------------------------------------------------------------ abstraction
-EMPTY_OBS = {"open": False, "panic": False, "stream": [], "idxT": [], "idxC": [], "contexts": [], "readAll": [],
+EMPTY_OBS = {"open": False, "panic": False, "again": True, "stream": [], "idxT": [], "idxC": [], "contexts": [], "readAll": [],
              "readCtx": [], "get": [], "head": [], "cas": [], "accept": []}
 
 
@@ -238,7 +242,7 @@ def abstract(run, acks, obs, nacked):
     # the raw primary partition first, so that the unknown id is bound to the frame itself
     stream = [frame(e[0], e[1]) for e in obs["stream"]]
     o = {
-        "open": True, "panic": False,
+        "open": True, "panic": False, "again": bool(obs.get("again", True)),
         "stream": stream,
         "idxT": [[aid(e[0]), run.rtopics.get(e[1], "t?"), aid(e[2])] for e in obs["idx_topic"]],
         "idxC": [[aid(e[0]), aid(e[1])] for e in obs["idx_context"]],
@@ -251,18 +255,27 @@ def abstract(run, acks, obs, nacked):
         "cas": [[run.rhashes.get(h, "h?"), bool(v.get("ok"))] for h, v in sorted(obs["cas"].items())],
         "accept": [[aid(c), bool(v)] for c, v in sorted(obs["accept"].items())],
     }
-    return o, ""
+    return o, obs.get("again_note", "")
 
 
 # ------------------------------------------------------------------------------ one run
-def recover(img_dir, probe):
+def recover(img_dir, probe, again=True):
     p = subprocess.run([XSV, "dur-recover", img_dir, "--probe", probe], stdout=subprocess.PIPE,
                        stderr=subprocess.PIPE, timeout=120)
     out = p.stdout.decode(errors="replace").strip().splitlines()
     if p.returncode != 0 or not out:
         # the process died without reporting (abort, stack overflow, signal): the store did not reopen
         return {"open": False, "panic": f"recover process exit {p.returncode}: {p.stderr.decode(errors='replace')[-300:]}"}
-    return json.loads(out[-1])
+    o = json.loads(out[-1])
+    if o.get("open") and "probe_panic" not in o and again:
+        # the recovered store took a few more appends (the accept probes) and stopped; it must come
+        # up once more with everything it showed the first time (journal truncated, then appended to)
+        o2 = recover(img_dir, probe, again=False)
+        first = {e[0] for e in o["stream"]}
+        o["again"] = bool(o2.get("open")) and "probe_panic" not in o2 and first <= {e[0] for e in o2.get("stream", [])}
+        if not o["again"]:
+            o["again_note"] = str(o2.get("panic") or o2.get("probe_panic") or "frames missing after the second reopen")
+    return o
 
 
 def probe_file(run, acks, d, tag):
@@ -277,13 +290,31 @@ def probe_file(run, acks, d, tag):
     return p
 
 
-def sample(points, limit, rng):
+def sample(points, limit, rng, must=()):
+    """all points if they fit; otherwise the `must` points (and their neighbours) first - crash
+    points around memtable flush / journal rotation / manifest rewrite in bulk runs -, then the
+    first and last few, then a random choice"""
     if len(points) <= limit:
         return list(points)
-    keep = set(points[:limit // 4]) | set(points[-limit // 4:])
+    pts = set(points)
+    keep = {m for m in must if m in pts}
+    if len(keep) > (limit * 3) // 4:
+        keep = set(rng.sample(sorted(keep), (limit * 3) // 4))
+    for m in sorted(keep):
+        if len(keep) < (limit * 3) // 4:
+            keep |= {q for q in (m - 1, m + 1) if q in pts}
+    edge = max(1, (limit - len(keep)) // 4)
+    keep |= set(points[:edge]) | set(points[-edge:])
     rest = [p for p in points if p not in keep]
-    keep |= set(rng.sample(rest, limit - len(keep)))
+    if limit > len(keep):
+        keep |= set(rng.sample(rest, min(len(rest), limit - len(keep))))
     return sorted(keep)
+
+
+def boring(name, path):
+    """the steady state of a run: journal appends and fsyncs, CAS files, ACK lines"""
+    return ("/cacache/" in "/" + path or (name in ("write", "fsync") and "fjall/journals/" in path)
+            or (name == "write" and "/segments/" in path) or "fjall" not in path)
 
 
 def do_run(run, d, cfg, seed, pool):
@@ -294,69 +325,104 @@ def do_run(run, d, cfg, seed, pool):
     os.makedirs(rd)
     stats = {"b": run.b, "ops": len(run.aops)}
 
-    # (1) the recorded run
-    rec_dir, rec_ack, rec_log = os.path.join(rd, "rec"), os.path.join(rd, "rec.ack"), os.path.join(rd, "rec.strace")
-    p = sh(["strace", "-f", "-y", "-xx", "-s", "4000000", "-o", rec_log, "-e", "trace=" + durimg.MUTATING,
-            XSV, "dur-child", rec_dir, "--ops", opsf, "--ack", rec_ack], timeout=900, check=False)
-    acks, done = parse_acks(rec_ack)
-    if p.returncode != 0 or not done:
-        raise ToolError(f"run {run.b}: the recorded execution did not complete (exit {p.returncode}, "
-                        f"{len(acks)} acks): {p.stdout[-500:]}")
-    told, ackres = run.told(acks)
-    events = [{"e": "reset", "b": run.b, "ops": told}] + ackres
-    images = []     # (kind, variant, k, nacked, acks, future of recover)
+    limit = cfg["bulk_points"] if run.bulk else cfg["max_points"]
 
-    # (2) power-loss images
-    try:
-        evs = durimg.parse(rec_log, rec_dir, rec_ack)
-        rep = durimg.Replayer(rec_dir)
-        first = next((i for i, e in enumerate(evs) if e["e"] == "ack" and e["line"].startswith("ACK 1 ")), None)
-        if first is None:
-            raise durimg.ImgError("no ACK 1 in the strace log")
-        points = sample(list(range(first + 1, len(evs) + 1)), cfg["max_points"], rng)
-        pset, seen = set(points), set()
-        probe_all = probe_file(run, acks, rd, "rec")
-        n_pl = 0
-        for i, ev in enumerate(evs, 1):
-            rep.apply(ev)
-            if i not in pset:
-                continue
-            na = rep.nacked()
-            for (variant, nsname, mode, cut) in rep.variants():
-                files = rep.files(nsname, mode, cut)
-                fp = (durimg.Replayer.fingerprint(files), na)
-                if fp in seen:
+    def record(attempt):
+        """(1) the recorded run, (2) its power-loss images; ImgError = reconstruction unsure"""
+        st, images = {}, []
+        # (1) the recorded run
+        rec_dir, rec_ack, rec_log = (os.path.join(rd, f"rec{attempt}"), os.path.join(rd, f"rec{attempt}.ack"),
+                                     os.path.join(rd, f"rec{attempt}.strace"))
+        p = sh(["strace", "-f", "-y", "-xx", "-s", "4000000", "-o", rec_log, "-e", "trace=" + durimg.MUTATING,
+                XSV, "dur-child", rec_dir, "--ops", opsf, "--ack", rec_ack], timeout=900, check=False)
+        acks, done = parse_acks(rec_ack)
+        if p.returncode != 0 or not done:
+            raise ToolError(f"run {run.b}: the recorded execution did not complete (exit {p.returncode}, "
+                            f"{len(acks)} acks): {p.stdout[-500:]}")
+        told, ackres = run.told(acks)
+        events = [{"e": "reset", "b": run.b, "ops": told}] + ackres
+
+        # (2) power-loss images
+        try:
+            evs, pending = durimg.parse(rec_log, rec_dir, rec_ack)
+            rep = durimg.Replayer(rec_dir)
+            first = next((i for i, e in enumerate(evs) if e["e"] == "ack" and e["line"].startswith("ACK 1 ")), None)
+            if first is None:
+                raise durimg.ImgError("no ACK 1 in the strace log")
+            must = [i for i, e in enumerate(evs, 1) if i > first and not boring(e["e"], e.get("p", ""))]
+            points = sample(list(range(first + 1, len(evs) + 1)), limit, rng, must)
+            st["power_points_structural"] = len(set(must) & set(points))
+            pset, seen = set(points), set()
+            probe_all = probe_file(run, acks, rd, f"rec{attempt}")
+            n_pl = 0
+            for i, ev in enumerate(evs, 1):
+                rep.apply(ev)
+                if i not in pset:
                     continue
-                seen.add(fp)
-                dest = os.path.join(rd, f"pl{i}-{variant}")
-                durimg.Replayer.materialise(files, dest)
-                n_pl += 1
-                images.append(("power", variant, i, na, acks, pool.submit(recover_and_drop, dest, probe_all)))
-        stats["selfcheck_entries"] = durimg.selfcheck(rep, rec_dir)
-        stats["syscalls_replayed"] = len(evs)
-        stats["power_points"] = len(points)
-    except durimg.ImgError as e:
-        raise ToolError(f"run {run.b}: power-loss reconstruction: {e}")
+                na = rep.nacked()
+                for (variant, nsname, mode, cut) in rep.variants():
+                    fp = (rep.describe(nsname, mode, cut), na)
+                    if fp in seen:
+                        continue
+                    seen.add(fp)
+                    files = rep.files(nsname, mode, cut)
+                    dest = os.path.join(rd, f"pl{attempt}-{i}-{variant}")
+                    durimg.Replayer.materialise(files, dest)
+                    n_pl += 1
+                    images.append(("power", variant, i, na, acks, pool.submit(recover_and_drop, dest, probe_all)))
+            try:
+                st["selfcheck_entries"] = durimg.selfcheck(rep, rec_dir)
+            except durimg.ImgError:
+                if not pending:
+                    raise
+                # a write of a background thread (collector) raced with the end of the process
+                for ev in pending:
+                    rep.apply(ev)
+                st["selfcheck_entries"] = durimg.selfcheck(rep, rec_dir)
+                st["pending_writes_at_exit"] = len(pending)
+            st["syscalls_replayed"] = len(evs)
+            st["power_points"] = len(points)
+        except durimg.ImgError:
+            for im in images:           # let the recoveries already under way finish and clean up
+                im[5].result()
+            raise
+
+        shutil.rmtree(rec_dir, ignore_errors=True)
+        os.unlink(rec_log)
+        return events, images, st
+
+    for attempt in range(3):
+        try:
+            events, images, st = record(attempt)
+            stats.update(st)
+            stats["record_attempts"] = attempt + 1
+            break
+        except durimg.ImgError as e:
+            log(f"run {run.b}: power-loss reconstruction unsure ({e}); recording again")
+            if attempt == 2:
+                raise ToolError(f"run {run.b}: power-loss reconstruction: {e}")
 
     # (3) kill images: count, then one real kill per store-mutating system call after ACK 1
     cnt_dir, cnt_ack, cnt_log = os.path.join(rd, "cnt"), os.path.join(rd, "cnt.ack"), os.path.join(rd, "cnt.log")
     r = kill_run(run, opsf, cnt_dir, cnt_ack, 0, cnt_log)
     if r["killed"] or r["exit"] != 0:
         raise ToolError(f"run {run.b}: counting run failed: {r}")
-    total, first_k, seen_ack = r["count"], None, 0
+    total, first_k, seen_ack, kmust = r["count"], None, 0, []
     for line in open(cnt_log):
-        n, _tid, _name, path = line.rstrip("\n").split(" ", 3)
+        n, _tid, name, path = line.rstrip("\n").split(" ", 3)
         if path == cnt_ack:
             seen_ack += 1
-            if seen_ack == 3:      # the open, OPEN, ACK 1: the next call is the first crash point
+            if seen_ack == 3 and first_k is None:   # the open, OPEN, ACK 1: the next call is the first crash point
                 first_k = int(n) + 1
-                break
+        elif first_k is not None and not boring(name, path):
+            kmust.append(int(n))
     if first_k is None:
         raise ToolError(f"run {run.b}: no ACK 1 in the counting run")
     a_cnt, _ = parse_acks(cnt_ack)
     images.append(("kill", "kill-end", total + 1, nack(a_cnt), a_cnt,
                    pool.submit(recover_and_drop, cnt_dir, probe_file(run, a_cnt, rd, "cnt"))))
-    kpoints = sample(list(range(first_k, total + 1)), cfg["max_points"], rng)
+    kpoints = sample(list(range(first_k, total + 1)), limit, rng, kmust)
+    stats["kill_points_structural"] = len(set(kmust) & set(kpoints))
     stats["kill_points"] = len(kpoints)
     stats["mutating_syscalls"] = total
 
@@ -371,6 +437,38 @@ def do_run(run, d, cfg, seed, pool):
     for fut in [pool.submit(one_kill, k) for k in kpoints]:
         k, a, obs = fut.result()
         images.append(("kill", "kill", k, nack(a), a, obs))
+
+    # (3b) SIGKILL at random instants: crash points between system calls
+    if cfg.get("rand_kills_per_run"):
+        t0 = time.time()
+        subprocess.run([XSV, "dur-child", os.path.join(rd, "tm"), "--ops", opsf, "--ack", os.path.join(rd, "tm.ack")],
+                       stdout=subprocess.DEVNULL, stderr=subprocess.DEVNULL, timeout=900)
+        total_t = time.time() - t0
+        shutil.rmtree(os.path.join(rd, "tm"), ignore_errors=True)
+
+        def one_rand(j, delay):
+            kd, ka = os.path.join(rd, f"x{j}"), os.path.join(rd, f"x{j}.ack")
+            p = subprocess.Popen([XSV, "dur-child", kd, "--ops", opsf, "--ack", ka],
+                                 stdout=subprocess.DEVNULL, stderr=subprocess.DEVNULL)
+            try:
+                p.wait(timeout=delay)
+            except subprocess.TimeoutExpired:
+                os.kill(p.pid, signal.SIGKILL)
+                p.wait()
+            a, _ = parse_acks(ka)
+            if 1 not in a:          # fell into the creation of the store: outside the quantifier
+                shutil.rmtree(kd, ignore_errors=True)
+                return None
+            return j, a, recover_and_drop(kd, probe_file(run, a, rd, f"x{j}"))
+
+        futs = [pool.submit(one_rand, j, rng.uniform(0.2, 1.1) * total_t) for j in range(cfg["rand_kills_per_run"])]
+        nr = 0
+        for fut in futs:
+            r = fut.result()
+            if r is not None:
+                nr += 1
+                images.append(("kill", "kill-random", r[0], nack(r[1]), r[1], r[2]))
+        stats["random_kills"] = nr
 
     # (4) observations -> trace events
     nimg = 0
@@ -506,7 +604,7 @@ def spec_mutants():
 
 # ------------------------------------------------------------------------------ the group
 def run(tier, seed):
-    cfg = TIERS[tier]
+    cfg = dict(TIERS[tier])
     t0 = time.time()
     res = {"group": "dur", "tier": tier, "seed": seed}
     res["mc"] = [model_check("MCXsDurable.tla", c, workers=8) for c in cfg["mc"]]
@@ -520,6 +618,7 @@ def run(tier, seed):
         lists += [("random", gen_random(rng, cfg["ops"])) for _ in range(cfg["rnd_runs"])]
         runs = [Run(b, o, seed) for b, (_, o) in enumerate(lists)]
         runs += [Run(len(lists) + i, gen_bulk(rng, 80), seed, bulk=True) for i in range(cfg["bulk"])]
+        cfg = dict(cfg, rand_kills_per_run=cfg["rand_kills"] // len(runs))
         t1 = time.time()
         files, stats, all_events = [], [], {}
         with ThreadPoolExecutor(max_workers=cfg["jobs"]) as pool:
